@@ -241,9 +241,43 @@ pub(crate) mod inner {
         where
             T: Default,
         {
+            #[cfg(feature = "verif_hooks")]
+            let _verif_span = super::verif::Span::enter();
             let mutex = self.0.get_or_init(Default::default);
             let mut guard = mutex.write().unwrap();
+            #[cfg(feature = "verif_hooks")]
+            super::verif::point(super::verif::Point::Acquired);
             f(&mut guard)
+        }
+    }
+
+    #[cfg(feature = "verif_hooks")]
+    impl StaticLock<Formatters> {
+        /// Empty every formatter map (the provider is kept) and clear lock poisoning,
+        /// so that a simulator can observe "first use" repeatedly in one process.
+        pub fn verif_reset(&self) {
+            let Some(lock) = self.0.get() else {
+                return;
+            };
+            {
+                let mut guard = lock.write().unwrap_or_else(|err| err.into_inner());
+                #[cfg(feature = "format_currency")]
+                guard.currency.clear();
+                #[cfg(feature = "format_nums")]
+                guard.num.clear();
+                #[cfg(feature = "format_datetime")]
+                guard.date.clear();
+                #[cfg(feature = "format_datetime")]
+                guard.time.clear();
+                #[cfg(feature = "format_datetime")]
+                guard.datetime.clear();
+                #[cfg(feature = "format_list")]
+                guard.list.clear();
+                #[cfg(feature = "plurals")]
+                guard.plural_rule.clear();
+                let _ = &mut guard;
+            }
+            lock.clear_poison();
         }
     }
     #[derive(Default)]
@@ -285,6 +319,75 @@ pub(crate) mod inner {
             formatters.provider =
                 super::data_provider::BakedDataProvider(Some(Box::new(data_provider)));
         });
+    }
+}
+
+/// Verification hooks (feature `verif_hooks`, off by default): scheduling points around the
+/// formatter cache lock and a cache reset, used by the deterministic simulator in /verif.
+#[cfg(feature = "verif_hooks")]
+pub mod verif {
+    use std::sync::{Arc, RwLock};
+
+    /// Where a thread is relative to the formatter cache lock.
+    #[derive(Debug, Clone, Copy, PartialEq, Eq)]
+    pub enum Point {
+        /// about to take the lock
+        BeforeLock,
+        /// holding the lock, about to look up / construct
+        Acquired,
+        /// lock released (also reached when unwinding)
+        Released,
+    }
+
+    type Hook = Arc<dyn Fn(Point) + Send + Sync>;
+
+    static HOOK: RwLock<Option<Hook>> = RwLock::new(None);
+
+    /// Install the callback invoked at every [`Point`].
+    pub fn set_hook(hook: impl Fn(Point) + Send + Sync + 'static) {
+        *HOOK.write().unwrap_or_else(|err| err.into_inner()) = Some(Arc::new(hook));
+    }
+
+    /// Remove the callback.
+    pub fn clear_hook() {
+        *HOOK.write().unwrap_or_else(|err| err.into_inner()) = None;
+    }
+
+    #[allow(dead_code)]
+    pub(crate) fn point(point: Point) {
+        let hook = HOOK.read().unwrap_or_else(|err| err.into_inner()).clone();
+        if let Some(hook) = hook {
+            hook(point);
+        }
+    }
+
+    #[allow(dead_code)]
+    pub(crate) struct Span;
+
+    #[allow(dead_code)]
+    impl Span {
+        pub(crate) fn enter() -> Self {
+            point(Point::BeforeLock);
+            Span
+        }
+    }
+
+    impl Drop for Span {
+        fn drop(&mut self) {
+            point(Point::Released);
+        }
+    }
+
+    /// Empty the formatter cache and clear poisoning of its lock.
+    pub fn reset_formatters() {
+        #[cfg(any(
+            feature = "format_nums",
+            feature = "format_datetime",
+            feature = "format_list",
+            feature = "plurals",
+            feature = "format_currency",
+        ))]
+        super::inner::FORMATTERS.verif_reset();
     }
 }
 
